@@ -329,6 +329,24 @@ func layouts(r *hx.Rng, d *Doc, shuffles int) []layout {
 		s2, names := addDecoys(r, s, r.Range(1, 5))
 		ls = append(ls, layout{Name: fmt.Sprintf("decoys-shuffle%d", i), Members: s2, Decoys: names})
 	}
+	if len(d.Mentions) > 0 {
+		// members quoting other formats' signatures: in front (their bytes are
+		// the first of the file after the local header), behind, in between
+		mn := namesOf(d.Mentions)
+		ls = append(ls, layout{Name: "mentions-first", Members: append(append([]writers.Member(nil), d.Mentions...), canon...), Decoys: mn})
+		ls = append(ls, layout{Name: "mentions-last", Members: append(append([]writers.Member(nil), canon...), d.Mentions...), Decoys: mn})
+		for i := 0; i < shuffles; i++ {
+			s := append([]writers.Member(nil), canon...)
+			hx.Shuffle(r, s)
+			for _, m := range d.Mentions {
+				pos := r.Intn(len(s) + 1)
+				s = append(s, writers.Member{})
+				copy(s[pos+1:], s[pos:])
+				s[pos] = m
+			}
+			ls = append(ls, layout{Name: fmt.Sprintf("mentions-shuffle%d", i), Members: s, Decoys: mn})
+		}
+	}
 	return ls
 }
 
@@ -340,13 +358,14 @@ func (l layout) bytes(d *Doc) []byte {
 }
 
 type docCase struct {
-	Kind   string `json:"kind"`
-	Seed   uint64 `json:"seed"`
-	Index  int    `json:"index"`
-	Layout string `json:"layout,omitempty"`
-	Name   string `json:"name,omitempty"`
-	Format string `json:"format,omitempty"`
-	Order  string `json:"member_order,omitempty"`
+	Kind    string `json:"kind"`
+	Seed    uint64 `json:"seed"`
+	Index   int    `json:"index"`
+	Layout  string `json:"layout,omitempty"`
+	Name    string `json:"name,omitempty"`
+	Format  string `json:"format,omitempty"`
+	Variant string `json:"variant,omitempty"`
+	Order   string `json:"member_order,omitempty"`
 }
 
 func memberNames(ms []writers.Member) string {
@@ -403,18 +422,29 @@ func namesFor(c *hx.Ctx, r *hx.Rng, d *Doc) []string {
 
 // RunDoc generates document #idx of the seed's stream and checks every layout
 // under every name.
-func RunDoc(c *hx.Ctx, idx int, verbose bool) {
+func RunDoc(c *hx.Ctx, idx int, verbose bool) { runDoc(c, "doc", idx, verbose) }
+
+// RunMention does the same for document #idx of the stream of documents whose
+// content quotes other formats' signatures (mention.go).
+func RunMention(c *hx.Ctx, idx int, verbose bool) { runDoc(c, "mention", idx, verbose) }
+
+func runDoc(c *hx.Ctx, kind string, idx int, verbose bool) {
 	r := hx.NewRng(c.Seed).Fork(uint64(idx)) // independent of how much of c.Rng earlier stages used: replays from (seed, index)
-	token := fmt.Sprintf("tok%dq%04x", idx, r.Intn(1<<16))
 	var d *Doc
-	// ZIP formats have many layouts per document, PDF and HTML one: more of those
-	plan := []string{FPDF, FDOCX, FODT, FXLSX, FPPTX, FHTML, FEPUB, "unsniffable", FPDF, FHTML, FPDF, FHTML}
-	if f := plan[idx%len(plan)]; f == "unsniffable" {
-		d = htmlUnsniffable(r, token)
+	if kind == "mention" {
+		r = hx.NewRng(c.Seed).Fork(0x4D454E54).Fork(uint64(idx))
+		d = genMentionDoc(r, idx, fmt.Sprintf("tok%dm%04x", idx, r.Intn(1<<16)))
 	} else {
-		d = genDoc(r, f, token)
+		token := fmt.Sprintf("tok%dq%04x", idx, r.Intn(1<<16))
+		// ZIP formats have many layouts per document, PDF and HTML one: more of those
+		plan := []string{FPDF, FDOCX, FODT, FXLSX, FPPTX, FHTML, FEPUB, "unsniffable", FPDF, FHTML, FPDF, FHTML}
+		if f := plan[idx%len(plan)]; f == "unsniffable" {
+			d = htmlUnsniffable(r, token)
+		} else {
+			d = genDoc(r, f, token)
+		}
 	}
-	dir := filepath.Join(c.OutDir, fmt.Sprintf("doc-%d", idx))
+	dir := filepath.Join(c.OutDir, fmt.Sprintf("%s-%d", kind, idx))
 	os.MkdirAll(dir, 0o755)
 	if !verbose {
 		defer os.RemoveAll(dir)
@@ -423,7 +453,7 @@ func RunDoc(c *hx.Ctx, idx int, verbose bool) {
 	canonDet := ""
 	for li, l := range ls {
 		data := l.bytes(d)
-		kase := docCase{Kind: "doc", Seed: c.Seed, Index: idx, Layout: l.Name, Format: d.Format, Order: memberNames(l.Members)}
+		kase := docCase{Kind: kind, Seed: c.Seed, Index: idx, Layout: l.Name, Format: d.Format, Variant: d.Variant, Order: memberNames(l.Members)}
 		zipField := "-"
 		if l.Members != nil {
 			zipField = membersField(l.Members)
@@ -497,7 +527,7 @@ func RunDoc(c *hx.Ctx, idx int, verbose bool) {
 				os.Remove(path)
 			}
 		}
-		c.Case(fmt.Sprintf("doc:%s:%s:%s:%x", d.Format, d.Variant, memberNames(l.Members), len(data)), nontrivial)
+		c.Case(fmt.Sprintf("%s:%s:%s:%s:%x", kind, d.Format, d.Variant, memberNames(l.Members), len(data)), nontrivial)
 	}
 }
 
@@ -567,7 +597,7 @@ func malformed(c *hx.Ctx) {
 }
 
 func Run(c *hx.Ctx) {
-	c.Rep.Rule = "names: every stem × extension × case variant + random names; magic: crafted prefixes, the 500-byte XML window, random prefixes; zipfmt: all single members, ordered pairs and random member lists over markers/prefixes/decoys/mimetype contents; documents: the harness's own writers for PDF, DOCX, ODT, XLSX, PPTX, HTML, EPUB 2/3 (+ HTML the sniffer cannot classify), each in canonical/reversed/markers-last/shuffled member orders and with decoy members of other formats in front/behind/between, each stored under all eight extensions, case variants, no and unsupported extensions and opened with tabula.Open(name).Text(); EPUB DRM matrix: rights file, unparsable metadata, all subsets of manifest items × algorithm, random subset×algorithm mixes, entry permutations and URI case/path forms; malformed: truncated/empty/markerless archives, random bytes. non-trivial = a document opened with its token in the text / an op with a definite format"
+	c.Rep.Rule = "names: every stem × extension × case variant + random names; magic: crafted prefixes, the 500-byte XML window, random prefixes; zipfmt: all single members, ordered pairs and random member lists over markers/prefixes/decoys/mimetype contents; documents: the harness's own writers for PDF, DOCX, ODT, XLSX, PPTX, HTML, EPUB 2/3 (+ HTML the sniffer cannot classify), each in canonical/reversed/markers-last/shuffled member orders and with decoy members of other formats in front/behind/between, each stored under all eight extensions, case variants, no and unsupported extensions and opened with tabula.Open(name).Text(); mentions: the same for documents of every format whose content quotes the signatures of the OTHER formats (%PDF-x.y, PK\\x03\\x04, doctype / <html>, mimetype strings, main part names) in title, meta, comments, attributes, body text, PDF comments / streams / page text / Info, ZIP member names and stored member data - marks × offsets (front, inside / across / beyond 512, 1024, 4096 bytes) swept for HTML and PDF, sampled for the ZIP formats and unclassifiable HTML; EPUB DRM matrix: rights file, unparsable metadata, all subsets of manifest items × algorithm, random subset×algorithm mixes, entry permutations and URI case/path forms; malformed: truncated/empty/markerless archives, random bytes. non-trivial = a document opened with its token in the text / an op with a definite format"
 	extOps(c)
 	magicOps(c)
 	zipfmtOps(c)
@@ -575,6 +605,9 @@ func Run(c *hx.Ctx) {
 	n := c.N(96, 1200)
 	for i := 0; i < n; i++ {
 		RunDoc(c, i, false)
+	}
+	for i, k := 0, c.N(1, 6)*mentionRound(); i < k; i++ {
+		RunMention(c, i, false)
 	}
 	m := c.N(60, 600)
 	for i := 0; i < m; i++ {
@@ -593,6 +626,8 @@ func Replay(c *hx.Ctx, kase map[string]interface{}) {
 	switch kind {
 	case "doc":
 		RunDoc(c, idx, true)
+	case "mention":
+		RunMention(c, idx, true)
 	case "drm":
 		RunDRM(c, idx, true)
 	case "ext":
